@@ -153,6 +153,8 @@ def check_state(st):
         if "e" in r:
             walk(r["e"])
     shape |= {"expr:" + o for o in ops}
+    if any(r.get("viaRef") for r in st["file"]):
+        shape.add("cond:viaRef")      # a condition consults a macro whose body is another macro
     for rec in st["file"]:
         if rec["k"] != "code":
             continue
